@@ -169,6 +169,14 @@ use core::ptr;
 use core::ops::{Bound, Range, RangeBounds};
 use crate::any_value::Unknown;
 
+// Verification hook (off by default): lets Miri execute the production byte loop
+// of `copy_bytes` instead of its `cfg!(miri)` branch.
+#[cfg(all(any_vec_verif, any_vec_verif_realcopy))]
+macro_rules! cfg {
+    (miri) => { false };
+    ($($t:tt)*) => { core::cfg!($($t)*) };
+}
+
 /// This is faster then ptr::copy,
 /// when count is runtime value, and count is small.
 ///
